@@ -723,6 +723,25 @@ Fixpoint del_loop (fuel : nat) (victims : list ptr) (cx : list ptr) (st0 : store
       end
   end.
 
+Fixpoint dup_keys (es : list (str * node)) : bool :=
+  match es with
+  | [] => false
+  | (k, _) :: r => existsb (fun kv => str_eqb (fst kv) k) r || dup_keys r
+  end.
+
+(* to_entries: the entry maps of a map / sequence; a null has no entries at all, another scalar is an error *)
+Definition entry_node (k v : node) : node := Map [([107; 101; 121], k); ([118; 97; 108; 117; 101], v)].
+Definition to_entries_items (n : node) : res (option (list (rkey * node))) :=
+  match n with
+  | Map es => Ok (Some (renumber_from 0 (List.map (fun kv => entry_node (Scalar TStr (fst kv)) (snd kv)) es)))
+  | Seq items =>
+      Ok (Some (renumber_from 0
+            (List.map (fun iv => entry_node (Scalar TInt (dec_N (N.of_nat (fst iv)))) (snd (snd iv)))
+                      (combine (seq 0 (length items)) items))))
+  | Scalar TNull _ => Ok None
+  | Scalar _ _ => Err
+  end.
+
 (* from_entries: every item must be a map with exactly one `key` (a string here) and one `value` entry *)
 Fixpoint entries_of_items (l : list (rkey * node)) (acc : list (str * node)) : res (list (str * node)) :=
   match l with
@@ -1015,10 +1034,25 @@ Fixpoint eval (fuel : nat) (e : expr) (ro : bool) (vs : vars) (ctx : list ptr) (
                 match n with
                 | Seq items =>
                     let* es := entries_of_items items [] in
-                    one (alloc_repl st0 c (Map es))
+                    if dup_keys es then Unsup else one (alloc_repl st0 c (Map es))
                 | _ => Err
                 end) ctx st
-    | EWithEntries _ => Unsup
+    | EWithEntries e1 =>
+        (* withEntriesOperator: to_entries, then the body on every entry separately (SingleChildContext),
+           the results collected into a fresh sequence (collectTogether), then from_entries *)
+        each (fun c st0 =>
+                let* n := deref_r st0 c in
+                let* oi := to_entries_items n in
+                match oi with
+                | None => Ok ([], st0)
+                | Some items =>
+                    let '(ep, st1) := alloc_repl st0 c (Seq items) in
+                    let* o := each (fun it st2 => ev e1 ro vs [it] st2) (child_ptrs ep (Seq items)) st1 in
+                    let* coll := collect_items (snd o) (fst o) [] in
+                    let* es := entries_of_items coll [] in
+                    (* duplicate keys (AddKeyValueChild appends blindly) are outside the JSON-model fragment *)
+                    if dup_keys es then Unsup else one (alloc_fresh (snd o) (Map es))
+                end) ctx st
     | EReverse =>
         each (fun c st0 =>
                 let* n := deref_r st0 c in
